@@ -727,6 +727,9 @@ func registerLibIntrinsics() {
 		cell := new(Value)
 		*cell = Struct{}
 		o := in.newObj("bytesreader")
+		if sl, ok := args[0].(Slice); ok && in.drained[sl.arr] != nil {
+			o.items = in.drained[sl.arr] // frames drained from a read-ahead buffer
+		}
 		o.str = s
 		in.side[cell] = o
 		return cell, true
